@@ -294,6 +294,14 @@ fn gen_case(t: &mut Tape) -> Case {
     // distinct RNG seeds per party even on an exhausted tape (equal seeds would make two parties draw
     // the same blinding factors and publish the same scalar, which real blinders do not)
     let seeds = (0..k + 1).map(|i| ct::fresh_scalar(t, 5000 + i as u32)).collect();
+    // other people's records travel with the PSET: a foreign proprietary pair in the global map, sometimes of
+    // exactly the shape of a published scalar (subtype 0, 32 bytes of key data, empty value) under another prefix
+    if t.chance(48) {
+        let prefix: Vec<u8> = t.choose(&[&b"pse"[..], &b"psett"[..], &b"vendor"[..], &b""[..]]).to_vec();
+        let key = elements::pset::raw::ProprietaryKey { prefix, subtype: 0, key: t.bytes(32) };
+        pset.global.proprietary.insert(key, vec![]);
+        shapes.push("global:foreign-record-shaped-like-a-scalar");
+    }
     shapes.sort_unstable();
     shapes.dedup();
     Case { pset, utxos, secrets, outs, n_assets: totals.len() + issued.len(), shapes, n_issuances, seeds }
@@ -361,6 +369,10 @@ fn run_order(case: &Case, order: &[usize], hops: &[bool], ctx: &mut Ctx) -> Resu
 
 fn check_final(case: &Case, pset: &Pset, factors: &Factors, ctx: &mut Ctx) -> R {
     ensure!(pset.global.scalars.is_empty(), "scalar list not empty after the last blinder: {}", pset.global.scalars.len());
+    for (k, v) in &case.pset.global.proprietary {
+        // not part of the statement: shown in the histogram only
+        ctx.class(if pset.global.proprietary.get(k) == Some(v) { "global:foreign-record-kept" } else { "outside-statement:global-foreign-record-lost-during-blinding(counted,not-failed)" });
+    }
     let tx = match guard::guard("extract_tx", 0, || pset.extract_tx())? {
         Ok(t) => t,
         Err(e) => return Err(Failure::new(format!("extract_tx failed after blinding: {}", e))),
